@@ -53,6 +53,7 @@ def dispatch (op : String) : Option (List String → List String → Option (Str
   | "raterun.stop" => some raterunOp
   | "raterun.switch" => some raterunOp
   | "raterun.count" => some raterunOp
+  | "raterun.order" => some raterunOp
   | "raterun.newstart" => some raterunOp
   | "plan" => some plan
   | "bfile" => some bfile
